@@ -124,6 +124,10 @@ type Iface struct {
 	Doc        []string `json:"doc,omitempty"`
 	GoGenerate bool     `json:"go_generate,omitempty"`
 	Methods    []Method `json:"methods"`
+	// EmbedLast: the last EmbedLast methods are declared - comments, notations and all - in an unmarked interface
+	// "<Name>Base" of the setup file that this interface embeds. They are methods of the converter interface like the
+	// others (one function each, their notations apply); nothing else about the program changes.
+	EmbedLast int `json:"embed_last,omitempty"`
 }
 
 // Import is one import spec of the setup file.
@@ -302,7 +306,41 @@ func (p *Prog) RenderSetup() string {
 		for _, l := range it.Opts.Lines() {
 			sb.WriteString("// " + l + "\n")
 		}
+		own := it.Methods
+		var base []Method
+		if k := it.EmbedLast; k > 0 && k <= len(own) {
+			own, base = it.Methods[:len(it.Methods)-k], it.Methods[len(it.Methods)-k:]
+		}
 		fmt.Fprintf(&sb, "type %s interface {\n", it.Name)
+		if len(base) > 0 {
+			sb.WriteString("\t" + it.Name + "Base\n")
+		}
+		renderMethods := func(ms []Method) {
+			for _, m := range ms {
+				for _, l := range m.Doc {
+					sb.WriteString("\t// " + l + "\n")
+				}
+				for _, l := range m.NotationLines() {
+					sb.WriteString("\t// " + l + "\n")
+				}
+				for _, l := range m.DocAfter {
+					sb.WriteString("\t// " + l + "\n")
+				}
+				sb.WriteString("\t" + m.MethodLine())
+				if m.Trailing != "" {
+					sb.WriteString(" // " + m.Trailing)
+				}
+				sb.WriteString("\n")
+			}
+		}
+		if len(base) > 0 {
+			renderMethods(own)
+			sb.WriteString("}\n\n")
+			fmt.Fprintf(&sb, "type %sBase interface {\n", it.Name)
+			renderMethods(base)
+			sb.WriteString("}\n\n")
+			continue
+		}
 		for _, m := range it.Methods {
 			for _, l := range m.Doc {
 				sb.WriteString("\t// " + l + "\n")
